@@ -45,6 +45,8 @@ def check(ctx: Ctx):
     col.check_linked_data(ctx)
     col.check_order_free(ctx)
     col.check_copy_total(ctx)
+    col.check_statistics(ctx)
+    ctx.expect("STAT", 6)
     ctx.expect("COPYALL", 2)
     # merging members in place (out aliases the first operand) equals the out-of-place merge
     from . import c11
@@ -66,4 +68,4 @@ def check(ctx: Ctx):
     ctx.expect("ORDERFREE", 2)
     ctx.expect("ALIAS", 2)
     ctx.trust("list.append/pop/slicing semantics; numpy record .copy() allocates new storage")
-    ctx.assume("the statistics clause (count, mean/std of radii and volumes, bounding box, trajectories, …) is not decided")
+    ctx.assume("of the statistics clause only the *source* of the size statistics and of the total volume (every member's own radius/volume, plain mean/std/sum) is decided; bounding box, trajectories and numerical values are not")
